@@ -96,6 +96,9 @@ for _gs, _last in ((['c'], 'ao'), (['c'], 'cHaco'), (['cHacc', 'c'], 'co'), (['c
 for _name, _gs in (('bare.R.c', ['1', 'c']), ('bare.R.cH', ['1', 'cH']), ('bare.R.cHc', ['1', 'cHc']), ('bare.R.H', ['1', 'H']),
                    ('c.R.H', ['c', 'H']), ('c.R.Hc', ['c', 'Hc']), ('bare.R.c.R.c', ['1', 'c', 'c'])):
     CONTRACTS.append(_mk(_name, _gs, note='a round word with no count word before it counts once'))
+# a bare round word after the separator word: Portuguese "dois milhões e mil" (2 001 000), Spanish "dos millones y mil"
+for _name, _gs in (('c.R.a.bare.R', ['c', 'a1', '']), ('c.R.a.bare.R.c', ['c', 'a1', 'c'])):
+    CONTRACTS.append(_mk(_name, _gs, note='a round word preceded only by the separator word counts once'))
 
 
 def spelling_enumeration(tier, seed):
